@@ -190,3 +190,13 @@ func ConsumersIdle(before map[int64]G, n int) bool {
 	}
 	return idle == n
 }
+
+// ParkedIn reports whether goroutine gid exists, is not running or runnable, and its innermost repository
+// frame contains frame ("" = any repository frame). It returns the goroutine for messages.
+func ParkedIn(d map[int64]G, gid int64, frame string) (G, bool) {
+	g, ok := d[gid]
+	if !ok || g.TopRepo == "" || g.State == "running" || g.State == "runnable" || strings.HasPrefix(g.State, "syscall") {
+		return g, false
+	}
+	return g, strings.Contains(g.TopRepo, frame)
+}
